@@ -2,7 +2,8 @@ package main
 
 // One long-lived results stream, running beside everything else (started first, joined last): a
 // unit that writes a line every second for more than a minute, followed from offset 0 from the moment it
-// was submitted, once over the unix control socket and once over a TCP control service.  A
+// was submitted, once over the unix control socket, once over a TCP control service and once over
+// every other kind of control-service listener (listeners.go: TCP with TLS, netceptor services).  A
 // stream is not bounded by anything but the unit: it must end only when the unit has finished,
 // with exactly the full output — not after some fixed time the server allows a command.
 
@@ -123,13 +124,16 @@ func runLong(c *Ctx, sh *shared, dir string) {
 		}
 	}
 	sh.mu.Unlock()
-	// the unix-socket session for the model
-	if s := sessions[0]; s.err == nil && bytes.Equal(out, want) {
+	// the sessions asked at submission, for the model: the unix socket and every other kind of listener
+	for i, s := range sessions {
+		if i == 1 || s.idle > 0 || s.err != nil || !bytes.Equal(out, want) {
+			continue
+		}
 		lines := unitLines(readStatusLog(statusLog), filepath.Join(n.UnitDir(unit), "status"))
 		pre, post, _ := envTrace(lines, n.Cmd.Process.Pid, out, true, askLines, nil)
 		sh.mu.Lock()
 		sh.rc.Add(fmt.Sprintf("CR (RCase 0 %s %s %s %s)", CoqList(pre), CoqList(post), coqBytes(s.got, 0), CoqBool(s.ended)),
-			fmt.Sprintf("results of a unit writing for %d s, followed from its submission: got=%d ended=%v after %v", seconds, len(s.got), s.ended, s.tEnd.Round(time.Second)))
+			fmt.Sprintf("results (%s) of a unit writing for %d s, followed from its submission: got=%d ended=%v after %v", s.via, seconds, len(s.got), s.ended, s.tEnd.Round(time.Second)))
 		sh.mu.Unlock()
 	}
 }
